@@ -8,6 +8,7 @@ EXTENDS Integers, Sequences, TLC, Json
 VARIABLES l, bad
 OkLine(r) == CASE r.ev = "conc" -> r.panics = 0 /\ r.res = r.want
                [] r.ev = "race" -> ~r.race
+               [] r.ev = "retain" -> r.panics = 0 /\ r.same_after_wipe      \* a decoded object owns its data: overwriting the buffer it was decoded from changes nothing
                [] r.ev = "args" -> r.panics = 0 /\ r.args_intact /\ r.canaries_intact /\ r.same_result      \* byte-slice arguments are read only, and only within their length
                [] OTHER -> FALSE
 INSTANCE LinesTrace WITH Ok <- OkLine
